@@ -3,7 +3,7 @@
 META = dict(
     engine="E-PURE",
     technique="Lean 4 proof (top-down induction over the verification chain; every accepted proof either equals the committed one field by field or exhibits an explicit hash collision) + differential correspondence vs the real MerkleProof.Validate on all single-field mutations and on trees with replayed relays",
-    level_text="Kernel-checked theorems, any hash function with 32-byte output, trees of any size: an accepted proof with 32-byte sibling hashes has the committed index, leaf hash, sibling hashes and ranges, or two distinct inputs with equal hash are exhibited; every single-field change (leaf, index, target, sibling hash/lower/upper, root) is rejected or collides; an empty range met by the loop gives (false, replay); a duplicated leaf produces an empty range on its path. Two re-encodings the real code accepts are proved as counterexample theorems and listed as known findings. Tie: all single-field mutations of valid proofs and trees from multisets with duplicates through the real Validate, every run.",
+    level_text="Kernel-checked theorems, any hash function with 32-byte output, trees of any size: an accepted proof with 32-byte sibling hashes has the committed index, leaf hash, sibling hashes and ranges, or two distinct inputs with equal hash are exhibited; every single-field change (leaf, index, target, sibling hash/lower/upper, root) is rejected or collides; an empty or inverted range met by the loop gives (false, replay), the range check is on the numbers (a wrapped uint64 width test would let inverted ranges through: counterexample theorem), ValidateBasic turns improper targets away; a duplicated leaf produces an empty range on its path. Two re-encodings the real code accepts are proved as counterexample theorems and listed as known findings. Tie: all single-field mutations of valid proofs, trees from multisets with duplicates, and claimant-built trees (arbitrary leaf order, inverted / empty / wrapping ranges) through the real Validate and ValidateBasic, every run.",
     level_note="Trusted: Lean kernel; the Go harness/driver parser; blake2b (parameter; collision is an explicit disjunct, never an axiom). Pre-upgrade layout binds the index only through its parity bits (stated separately). The keeper's level check is modelled (validateProof); handleProofMsg's burn/claim deletion on replay is covered by the chain engine (C32), not here.",
 )
 
@@ -11,6 +11,10 @@ RULE = ("c30 forge: real RelayProof sets (sizes 5..8, 15..17, 31..33, 63..65, ra
         "every single-field mutation: other/fresh leaf, index (+-1, +-2, +-2^(L-1), xor 1, negated, sign bit, random, +m*2^L aliases), target lower/upper/hash, per level sibling hash "
         "(bit flip, truncated, nil, zero-extended, other node, buffer-overflow extension), sibling lower/upper +-1, zero-width sibling, swapped siblings, fewer/more siblings and levels, "
         "odd-leaf and even-leaf midpoint pairs, root hash/upper/lower, another index's proof; one third of the trees contain 1..n/2 replayed (duplicated) relays and are validated at up to 40 indices; "
+        "claimant-built trees (every strategy once at the start of the stream, then a quarter of the iterations, 3 trees each): 5..17 real relays in an order of the claimant's choosing with lower bounds chained "
+        "from the previous upper bound — second copy of a relay right after a leaf with a larger sum as left/right child (inverted range), adjacent copy (zero width), random permutation with and without "
+        "a duplicate, a node with Upper = 0, a node with sum 2^64-1, a wrapping width-1 node [2^64-1, 0]; every committed position validated by the real Validate, every proof and seven hand-made targets "
+        "(empty, inverted, wrapped, Upper = 0, full width, proper) by the real MsgProof.ValidateBasic; "
         "non-trivial = Validate returned (no panic)")
 
 
